@@ -11,6 +11,7 @@ def pipeline(texts, workdir, tag="m"):
         f = os.path.join(workdir, "%s_%d.asn1" % (tag, i))
         open(f, "w").write(t)
         files.append(f)
+    vlib.cargo_build()        # the front end binary is built from /repo's current tree (memoised per run)
     exe = os.path.join(vlib.bin_dir(), "frontend")
     p = subprocess.run([exe, "pipeline"] + files, stdout=subprocess.PIPE, stderr=subprocess.PIPE, text=True, timeout=600)
     if p.returncode != 0:
